@@ -58,10 +58,16 @@ func parseAndCompare(c *gen.Case, b []byte, reserialize bool) (vs []pbt.Violatio
 			vs = append(vs, pbt.V("parse-error"+ctx, "%s parser rejects a valid message: %v: %s", md.name, perr, ref.Show(b)))
 			continue
 		}
+		if c.Tpl.Fix44 == "" {
+			if what := build.BeyondBody(e); what != "" {
+				vs = append(vs, pbt.V("parser-wrote-beyond-the-body", "%s parser: the body slice the application handed to the message has spare capacity, and the parse stored something there (%s): whatever else lives in that array (another message definition cut from the same table) is overwritten", md.name, what))
+				continue
+			}
+		}
 		var diffs []build.Diff
 		diffs = append(diffs, build.Compare(e.Header().Items(), c.Tpl.Header, c.Header, "header")...)
 		diffs = append(diffs, build.Compare(e.Body(), c.Tpl.Body, c.Body, "body")...)
-		diffs = append(diffs, build.Compare(e.Trailer().Items(), c.Tpl.Trailer, c.Trailer, "trailer")...)
+		diffs = append(diffs, build.Compare(build.TrailerItems(e, &c.Tpl), c.Tpl.Trailer, c.Trailer, "trailer")...)
 		for _, d := range diffs {
 			key := "parsed-" + d.Class + ctx
 			vs = append(vs, pbt.V(key, "%s parser: %s: %s (message %s)", md.name, d.Path, d.Msg, ref.Show(b)))
